@@ -124,7 +124,12 @@ func genC14(cw *caseWriter, seed uint64, tier string) {
 		// explicit offset equal to and different from the process zone's
 		colTexts := []string{"2021-10-31T02:30:00+02:00", "2021-10-31T02:30:00+01:00", "2021-10-31T01:30:00+02:00", "2021-10-31T03:00:00+01:00", "2021-03-28T02:30:00+01:00", "2021-03-28T03:30:00+02:00",
 			"2021-11-07T01:30:00-04:00", "2021-11-07T01:30:00-05:00", "2021-03-14T02:30:00-05:00", "2021-03-14T03:30:00-04:00", "2021-09-24T21:21:00Z", "2021-09-24T21:21:00.999+05:30", "2021-09-24T21:21:00,5-03:00",
-			"0001-01-01T00:00:00Z", "9999-12-31T23:59:59Z", "1969-12-31T23:59:58.500Z", "2300-01-01T00:00:00Z", "1600-02-29T12:00:00+14:00", "2021-06-01T12:00:00+02:00", "2021-06-01T10:00:00Z"}
+			"0001-01-01T00:00:00Z", "9999-12-31T23:59:59Z", "1969-12-31T23:59:58.500Z", "2300-01-01T00:00:00Z", "1600-02-29T12:00:00+14:00", "2021-06-01T12:00:00+02:00", "2021-06-01T10:00:00Z",
+			// calendar rules: century years that are and are not leap years, the day before and after, year 0004 and the
+			// (proleptic) days dropped in 1582, the last second of a year west and east of Greenwich, the epoch with a
+			// negative zero offset, quarter-hour and maximal offsets
+			"1900-02-28T23:59:59+01:00", "1900-03-01T00:00:00-01:00", "2000-02-29T23:59:59+13:45", "2100-02-28T12:00:00-09:30", "2100-03-01T00:00:00Z", "0004-02-29T12:00:00+05:45", "1582-10-10T00:00:00+00:30",
+			"2021-12-31T23:59:59-12:00", "2022-01-01T00:00:00+14:00", "1970-01-01T00:00:00-00:00", "2038-01-19T03:14:08Z", "1901-12-13T20:45:51Z", "2021-09-24T21:21:00+23:59", "2021-09-24T21:21:00-23:59", "2106-02-07T06:28:16+08:45"}
 		ins := []colDesc{{name: "c", format: "datetime", ty: "none"}, {name: "c", format: "datetime", ty: "time"}, {name: "c", format: "auto", ty: "time"}, {name: "c", format: "string", ty: "time"}}
 		outs := []colDesc{{name: "c", format: "datetime", ty: "none"}, {name: "c", format: "timestamp", ty: "none"}, {name: "c", format: "string", ty: "time"}, {name: "c", format: "datetime", ty: "time"}, {name: "c", format: "timestamp", ty: "i64"},
 			// raw types that cannot hold a time.Time (the cast fails and the value is kept as it is): the offset and the
@@ -136,6 +141,19 @@ func genC14(cw *caseWriter, seed uint64, tier string) {
 				for _, co := range outs {
 					emitLine(cw, "C14", []colDesc{ci}, []colDesc{co}, []byte(`{"c":"`+txt+`"}`), true)
 				}
+			}
+		}
+		// the column texts one after the other through ONE importer and ONE exporter per column pair
+		for _, ci := range ins {
+			for _, co := range outs {
+				if !r.chance(1, 3) {
+					continue
+				}
+				var batch [][]byte
+				for _, k := range r.perm(len(colTexts)) {
+					batch = append(batch, []byte(`{"c":"`+colTexts[k]+`"}`))
+				}
+				emitLineBatch(cw, "C14", []colDesc{ci}, []colDesc{co}, batch)
 			}
 		}
 		// several date-time columns in one row: the same instant with different offsets side by side
